@@ -192,7 +192,7 @@ fn tables(cx: &mut Ctx, src: &sm::Src) {
         Some(f) => cx.fail(rule, &format!("{}/length-modifier", rule), &src.loc(f), "consume_length does not skip exactly one optional h / l / L (Python rejects `%lld` as an unsupported format character)"),
         None => cx.anchor_missing(rule, "consume_length"),
     }
-    if t.contains("pubfnformat_char(&self,ch:char)->String{self.format_string_with_precision(ch.to_string(),Some(&(CFormatQuantity::Amount(1).into())),)}") {
+    if t.contains("pubfnformat_char(&self,ch:char)->String{self.format_string_with_precision(ch.to_string(),Some(&CFormatQuantity::Amount(1).into()),)}") {
         cx.ok(rule, "format_char renders one character regardless of the specifier's precision");
     } else {
         cx.fail(rule, &format!("{}/format_char", rule), &src.rel, "format_char does not use the fixed precision 1: `%.0c` would drop the character");
